@@ -116,6 +116,13 @@ def _judge_slice(ctx: Ctx, groups, kind, base):
     lines, index = [], {}
     for t0, ((w, b, scheds, forms, mh), (cfg, runs)) in enumerate(zip(groups, results)):
         t = base + t0
+        if cfg["ref"]["err"]:
+            # the one-piece decode itself fails: the body counts as outside the domain (nothing claimed); counted, and
+            # an unrelated exception class is reported as drift so that it cannot pass unnoticed
+            oc = ctx.notes.setdefault("bodies_outside_domain_by_reference_error", {})
+            oc[cfg["ref"]["err"]] = oc.get(cfg["ref"]["err"], 0) + 1
+            if cfg["ref"]["err"].startswith("exc:") and len(ctx.model_drift) < 20:
+                ctx.model_drift.append({"kind": "reference-decode-crashed", "err": cfg["ref"]["err"], "bnd": list(b)[:40]})
         cfg["t"] = t
         lines.append(cfg)
         for i, r in enumerate(runs):
